@@ -102,8 +102,26 @@ impl Repo {
     }
 
     fn walker_files(&self, icase: bool) -> BTreeSet<String> {
+        self.walker_files_in_order(icase, None)
+    }
+
+    /// `order`: visit the entries of each directory sorted by name, ascending
+    /// (Some(false)) or descending (Some(true)); None = as the directory
+    /// lists them. What is ignored must not depend on the order of the visit
+    /// (a nested ignore file applies to its own subtree only, whatever was
+    /// visited before).
+    fn walker_files_in_order(&self, icase: bool, order: Option<bool>) -> BTreeSet<String> {
         let mut b = WalkBuilder::new(&self.root);
         b.standard_filters(false).git_ignore(true).require_git(false).parents(false).ignore_case_insensitive(icase).threads(1);
+        match order {
+            Some(false) => {
+                b.sort_by_file_name(|a, b| a.cmp(b));
+            }
+            Some(true) => {
+                b.sort_by_file_name(|a, b| b.cmp(a));
+            }
+            None => {}
+        }
         let mut out = BTreeSet::new();
         for ent in b.build() {
             let Ok(ent) = ent else { continue };
@@ -124,6 +142,8 @@ struct Case {
     root: String,
     nested: Option<String>,
     icase: bool,
+    /// directory holding the nested ignore file
+    ndir: &'static str,
 }
 
 fn lines(maxlen: usize) -> Vec<String> {
@@ -209,37 +229,47 @@ pub fn run(args: &Args) -> ! {
     let shorts = lines(tier.pick(1, 2));
     let mut cases: Vec<Case> = vec![];
     for l in singles.iter() {
-        cases.push(Case { root: format!("{}\n", l), nested: None, icase: false });
+        cases.push(Case { root: format!("{}\n", l), nested: None, icase: false, ndir: "a" });
     }
     // ordered pairs (last match wins, negation, un-re-includable parents)
     let pair_lines = lines(2);
     let pl: Vec<&String> = if tier == Tier::Quick { pair_lines.iter().step_by(2).collect() } else { pair_lines.iter().collect() };
     for a in pl.iter() {
         for b in pl.iter() {
-            cases.push(Case { root: format!("{}\n{}\n", a, b), nested: None, icase: false });
+            cases.push(Case { root: format!("{}\n{}\n", a, b), nested: None, icase: false, ndir: "a" });
         }
     }
     // root line + nested a/.gitignore line
     for a in pl.iter() {
         for b in pl.iter().step_by(tier.pick(3, 1)) {
-            cases.push(Case { root: format!("{}\n", a), nested: Some(format!("{}\n", b)), icase: false });
+            cases.push(Case { root: format!("{}\n", a), nested: Some(format!("{}\n", b)), icase: false, ndir: "a" });
+        }
+    }
+    // the same with the nested file two and three levels down, in the LAST
+    // directory of a descending visit (the walker then leaves several levels
+    // at once and still has root entries to visit)
+    for nd in ["d", "d/a"] {
+        for a in pl.iter().step_by(tier.pick(4, 1)) {
+            for b in pl.iter().step_by(tier.pick(3, 1)) {
+                cases.push(Case { root: format!("{}\n", a), nested: Some(format!("{}\n", b)), icase: false, ndir: nd });
+            }
         }
     }
     // case-insensitive variants, comments, trailing blanks
     for l in singles.iter().step_by(tier.pick(5, 1)) {
-        cases.push(Case { root: format!("{}\n", l), nested: None, icase: true });
+        cases.push(Case { root: format!("{}\n", l), nested: None, icase: true, ndir: "a" });
     }
     for l in shorts.iter() {
         for suffix in [" ", "  ", "\\ ", " #", "\t", "\\  ", "\\\\ ", "\\ \\ ", " \\ ", "\\\\\\ "] {
-            cases.push(Case { root: format!("{}{}\n", l, suffix), nested: None, icase: false });
+            cases.push(Case { root: format!("{}{}\n", l, suffix), nested: None, icase: false, ndir: "a" });
         }
-        cases.push(Case { root: format!("# c\n\n{}\n", l), nested: None, icase: false });
-        cases.push(Case { root: format!("A{}\n", l), nested: None, icase: true });
+        cases.push(Case { root: format!("# c\n\n{}\n", l), nested: None, icase: false, ndir: "a" });
+        cases.push(Case { root: format!("A{}\n", l), nested: None, icase: true, ndir: "a" });
     }
     // a UTF-8 byte-order mark at the start of the file (git skips it)
     for l in shorts.iter() {
-        cases.push(Case { root: format!("\u{feff}{}\n", l), nested: None, icase: false });
-        cases.push(Case { root: format!("\u{feff}{}\nb\n", l), nested: Some(format!("\u{feff}!{}\n", l)), icase: false });
+        cases.push(Case { root: format!("\u{feff}{}\n", l), nested: None, icase: false, ndir: "a" });
+        cases.push(Case { root: format!("\u{feff}{}\nb\n", l), nested: Some(format!("\u{feff}!{}\n", l)), icase: false, ndir: "a" });
     }
     // several `**/lit/lit` lines in one file (served together by one
     // multi-literal suffix matcher): ordered pairs with every negation
@@ -257,10 +287,10 @@ pub fn run(args: &Args) -> ! {
         for a in pool.iter() {
             for b in pool.iter() {
                 for (na, nb) in [("", ""), ("!", ""), ("", "!")] {
-                    cases.push(Case { root: format!("{}{}\n{}{}\n", na, a, nb, b), nested: None, icase: false });
+                    cases.push(Case { root: format!("{}{}\n{}{}\n", na, a, nb, b), nested: None, icase: false, ndir: "a" });
                 }
                 for c in pool.iter().step_by(tier.pick(3, 1)) {
-                    cases.push(Case { root: format!("{}\n!{}\n{}\n", a, b, c), nested: None, icase: false });
+                    cases.push(Case { root: format!("{}\n!{}\n{}\n", a, b, c), nested: None, icase: false, ndir: "a" });
                 }
             }
         }
@@ -272,10 +302,10 @@ pub fn run(args: &Args) -> ! {
         let stars = ["/d/*", "d/*", "/d/a/*", "d/a/*", "/a/*", "/b/*", "/d/*/", "/d/a/?", "/A/*"];
         let backs = ["!/d/a/", "!/d/a", "!d/a/b/", "!/d/a/b", "!/d/b/a/", "!/a/b/", "!/a/a", "!/b/a/", "!/A/a/"];
         for st in stars {
-            cases.push(Case { root: format!("{}\n", st), nested: None, icase: false });
+            cases.push(Case { root: format!("{}\n", st), nested: None, icase: false, ndir: "a" });
             for bk in backs {
-                cases.push(Case { root: format!("{}\n{}\n", st, bk), nested: None, icase: false });
-                cases.push(Case { root: format!("{}\n{}\n", st, bk), nested: None, icase: true });
+                cases.push(Case { root: format!("{}\n{}\n", st, bk), nested: None, icase: false, ndir: "a" });
+                cases.push(Case { root: format!("{}\n{}\n", st, bk), nested: None, icase: true, ndir: "a" });
             }
         }
     }
@@ -299,7 +329,12 @@ pub fn run(args: &Args) -> ! {
                         continue;
                     }
                     std::fs::write(repo.root.join(".gitignore"), &c.root).unwrap_or_else(|_| machinery_error("write .gitignore"));
-                    let nested_path = repo.root.join("a/.gitignore");
+                    for nd in ["a", "d", "d/a"] {
+                        if nd != c.ndir || c.nested.is_none() {
+                            let _ = std::fs::remove_file(repo.root.join(nd).join(".gitignore"));
+                        }
+                    }
+                    let nested_path = repo.root.join(c.ndir).join(".gitignore");
                     match &c.nested {
                         Some(n) => std::fs::write(&nested_path, n).unwrap_or_else(|_| machinery_error("write nested")),
                         None => {
@@ -313,7 +348,17 @@ pub fn run(args: &Args) -> ! {
                             continue;
                         }
                     };
-                    let got = repo.walker_files(c.icase);
+                    let mut got = repo.walker_files(c.icase);
+                    if c.nested.is_some() {
+                        // (a discrepancy in either sorted order is reported
+                        // through the same comparison below)
+                        for rev in [false, true] {
+                            let g2 = repo.walker_files_in_order(c.icase, Some(rev));
+                            if g2 != want {
+                                got = g2;
+                            }
+                        }
+                    }
                     acc.cases += 1;
                     if want.len() < 156 {
                         acc.nontrivial += 1;
@@ -362,13 +407,13 @@ pub fn run(args: &Args) -> ! {
                             class_cross = repo.walker_files(c.icase) == want;
                         }
                         let _ = has_class(&all);
-                        let key = format!("{}{}{}", esc(c.root.as_bytes()), c.nested.as_ref().map_or(String::new(), |n| format!(" + a/.gitignore {}", esc(n.as_bytes()))), if c.icase { " (icase)" } else { "" });
+                        let key = format!("{}{}{}", esc(c.root.as_bytes()), c.nested.as_ref().map_or(String::new(), |n| format!(" + {}/.gitignore {}", c.ndir, esc(n.as_bytes()))), if c.icase { " (icase)" } else { "" });
                         *acc.classes.entry(if class_cross { "class".into() } else { "other".into() }).or_insert(0) += 1;
                         if acc.disc.len() < 300 {
                             acc.disc.push((
                                 if class_cross { Some("negated-class-crosses-separator") } else { None },
                                 key,
-                                json!({"kind":"gitignore","root_gitignore":esc(c.root.as_bytes()),"nested_a_gitignore":c.nested.as_ref().map(|n| esc(n.as_bytes())),"case_insensitive":c.icase,
+                                json!({"kind":"gitignore","root_gitignore":esc(c.root.as_bytes()),"nested_a_gitignore":c.nested.as_ref().map(|n| esc(n.as_bytes())),"nested_dir":c.ndir,"case_insensitive":c.icase,
                                        "ripgrep_lists_but_git_ignores": extra.iter().take(8).collect::<Vec<_>>(), "git_lists_but_ripgrep_skips": missing.iter().take(8).collect::<Vec<_>>(),
                                        "n_extra": extra.len(), "n_missing": missing.len()}),
                             ));
@@ -402,7 +447,7 @@ pub fn run(args: &Args) -> ! {
     ev.set(
         "rule",
         format!(
-            "tree: 156 files (four of them with names ending in a blank or containing a backslash) over names {{ab,a.b,.a,a-b,a*,[a],a?,c,a,b,A,a.}} in directories {{.,a,b,a.,A}} x {{.,a,b}} plus d/{{a,b}}/{{a,b}}/{{a,b}}. Ignore-file contents: every single line that is a token string of length <= {} over {:?}; ordered pairs of lines (length <= 2 each{}); a root line with a nested a/.gitignore line; case-insensitive variants; trailing blanks, escaped blanks, comments; a byte-order mark at the start of the root and the nested file; every ordered pair (with each negation pattern) and ignore / re-include / ignore triples over the 12 lines **/x/y and **/x/y/z with x,y,z in {{a,b}} (several multi-component literal suffixes in one file); nine `dir/*` rules each followed by nine re-includes of something further down. Oracle: git {} (`git ls-files -o --exclude-standard`) in a scratch repository per shard. Observation: the set of files the real ignore::Walk yields with only .gitignore active. Lines containing '//' or a backslash before '/' are skipped (no specification). distinct_nontrivial = contents for which git ignores at least one file.",
+            "tree: 156 files (four of them with names ending in a blank or containing a backslash) over names {{ab,a.b,.a,a-b,a*,[a],a?,c,a,b,A,a.}} in directories {{.,a,b,a.,A}} x {{.,a,b}} plus d/{{a,b}}/{{a,b}}/{{a,b}}. Ignore-file contents: every single line that is a token string of length <= {} over {:?}; ordered pairs of lines (length <= 2 each{}); a root line with a nested a/.gitignore line, and with a nested d/.gitignore or d/a/.gitignore line; case-insensitive variants; trailing blanks, escaped blanks, comments; a byte-order mark at the start of the root and the nested file; every ordered pair (with each negation pattern) and ignore / re-include / ignore triples over the 12 lines **/x/y and **/x/y/z with x,y,z in {{a,b}} (several multi-component literal suffixes in one file); nine `dir/*` rules each followed by nine re-includes of something further down. Oracle: git {} (`git ls-files -o --exclude-standard`) in a scratch repository per shard. Observation: the set of files the real ignore::Walk yields with only .gitignore active (with a nested ignore file: in directory order and with the entries of every directory sorted by name, ascending and descending — what is ignored must not depend on the order of the visit). Lines containing '//' or a backslash before '/' are skipped (no specification). distinct_nontrivial = contents for which git ignores at least one file.",
             tier.pick(4, 5), TOKENS, if tier == Tier::Quick { ", every 2nd line" } else { "" },
             String::from_utf8_lossy(&Command::new("git").arg("--version").output().map(|o| o.stdout).unwrap_or_default()).trim()
         ),
@@ -419,11 +464,18 @@ fn replay(path: &str) -> ! {
     let root = unesc(v["root_gitignore"].as_str().unwrap_or(""));
     std::fs::write(repo.root.join(".gitignore"), &root).unwrap();
     if let Some(n) = v["nested_a_gitignore"].as_str() {
-        std::fs::write(repo.root.join("a/.gitignore"), unesc(n)).unwrap();
+        let nd = v["nested_dir"].as_str().unwrap_or("a");
+        std::fs::write(repo.root.join(nd).join(".gitignore"), unesc(n)).unwrap();
     }
     let icase = v["case_insensitive"].as_bool().unwrap_or(false);
     let want = repo.git_files(icase).unwrap_or_default();
-    let got = repo.walker_files(icase);
+    let mut got = repo.walker_files(icase);
+    for rev in [false, true] {
+        let g2 = repo.walker_files_in_order(icase, Some(rev));
+        if g2 != want {
+            got = g2;
+        }
+    }
     println!(".gitignore {:?}: ripgrep lists but git ignores: {:?}; git lists but ripgrep skips: {:?}", esc(&root), got.difference(&want).take(10).collect::<Vec<_>>(), want.difference(&got).take(10).collect::<Vec<_>>());
     let _ = Path::new("");
     std::process::exit(if got == want { 0 } else { 1 })
